@@ -48,7 +48,8 @@ TEXTS = ["It was launched on 4 October 1957. We remembered it 2 days ago, yester
          "Le 12 janvier 2020. Puis hier.", "Treffen am 3. März 2015 um 14:05 Uhr. Gestern.", "yesterday and 10/11/12",
          "Встреча 1 января 2020 г. в 10:00. Вчера.", "今天 2020年1月12日", "on 02-03-2016, in 3 weeks", "nothing to see",
          "12 Ocak 2020 de geldi. dün.", "le 12 février 2020, puis le 3 août 2021", "am 3. März 2015 und später am 5. Jänner 2016"]
-LANGS = [None, ["ja"], ["en"], ["fr"], ["es"], ["de"], ["tr"], ["tl"], ["ru"], ["zh"], ["fr", "en"], ["es", "fr"], ["en", "tl"], ["de", "tr", "fr"]]
+LANGS = [None, ["ja"], ["en"], ["fr"], ["es"], ["de"], ["tr"], ["tl"], ["ru"], ["zh"], ["fr", "en"], ["es", "fr"], ["en", "tl"], ["de", "tr", "fr"],
+         ["en", "fr"], ["fr", "es"], ["tl", "en"], ["fr", "tr", "de"]]
 REGIONS = [None, None, None, "BE", "US", "CA", "ZZ"]
 SETTINGS = [None, None, None,
             {}, {"SKIP_TOKENS": ["de"]}, {"SKIP_TOKENS": []}, {"SKIP_TOKENS": ["t"]}, {"NORMALIZE": False}, {"NORMALIZE": True},
@@ -506,6 +507,21 @@ def triples(draw):
         if draw(st.booleans()):
             h.append(ns_call())
         h.append(copy.deepcopy(first))
+        return {"history": h}
+    if sc == 8:
+        # the same set of languages (or locales) in two orders, both with use_given_order: whatever is memoised per *set* of codes
+        # must not keep the first caller's order
+        L = list(draw(st.sampled_from([["en", "fr"], ["en", "de"], ["fr", "en", "ja"], ["es", "en"], ["ru", "en"], ["de", "tl"]])))
+        R = list(reversed(L))
+        strs = ["11/12/2020", "02-03-2016", "10/11/12", "01/02/2020 10:00", "03.04.2015", "12 janvier 2020"]
+        S = copy.deepcopy(draw(st.sampled_from([None, None, {"PREFER_DATES_FROM": "past"}])))
+        s_ = draw(st.sampled_from(strs))
+        h = [["new_parser", 0, L, None, None, True, S], ["use_parser", 0, s_, None],
+             ["new_parser", 1, R, None, None, True, copy.deepcopy(S)], ["use_parser", 1, draw(st.sampled_from([s_, s_, draw(st.sampled_from(strs))])), None]]
+        if draw(st.booleans()):
+            h.append(["new_parser", 2, L, None, None, draw(st.booleans()), copy.deepcopy(S)])
+            h.append(["use_parser", 2, s_, None])
+        h.append(["use_parser", 0, s_, None])
         return {"history": h}
     if sc in (9, 10):
         # two (or three) live parsers for the same languages whose settings differ in the value of exactly one key, used in
